@@ -244,6 +244,11 @@ func (o *FilterOptimizer) optimizeBetweenExpr(e *BinaryOpExpr) *ScanType {
 	}
 
 	if field == KeyKW && canUseRange {
+		if bytes.Compare(lower, upper) > 0 {
+			// key between 'z' and 'a' selects no key, it is not a
+			// range whose bounds can be merged with other ranges
+			return &ScanType{EMPTY, nil}
+		}
 		return &ScanType{RANGE, [][]byte{lower, upper}}
 	}
 	return &ScanType{FULL, nil}
